@@ -87,6 +87,14 @@ func (l *spreadLedger) check(rt *rapid.T, s *Sim, in string) {
 				g36 := new(big.Rat).Mul(b.L, new(big.Rat).SetFrac(big.NewInt(4), e36))
 				g36.Mul(g36, new(big.Rat).Add(big.NewRat(1, 1), new(big.Rat).Inv(new(big.Rat).Mul(lo, lo))))
 				tol.Add(tol, new(big.Rat).Mul(g36, share))
+				// and the s'^2/s * 1e-36 term of a token0 amount entering the next sqrt price (see RefSwap)
+				hi := b.SqrtTo
+				if b.SqrtFrom.Cmp(hi) > 0 {
+					hi = b.SqrtFrom
+				}
+				g2 := new(big.Rat).Quo(new(big.Rat).Mul(hi, hi), lo)
+				g2.Mul(g2, new(big.Rat).SetFrac(big.NewInt(8), e36))
+				tol.Add(tol, new(big.Rat).Mul(g2, share))
 			}
 		}
 		after := get(s.claimableOf(p.PositionId).spread, in)
